@@ -363,7 +363,9 @@ func init() {
 	// datetime
 	stamps := sv("2006-01-02T15:04:05Z", "2006-01-02T15:04:05+07:00", "2006-01-02T15:04:05.123Z", "2020-02-29T23:59:59-00:00", "2006-01-02", "",
 		"2006-01-02T15:04:05", "2006-13-02T15:04:05Z", "not a time", "2006-01-02t15:04:05z", "0000-01-01T00:00:00Z", "9999-12-31T23:59:59Z",
-		"2006-01-02T24:00:00Z", "2006-1-2T15:04:05Z", "2021-02-29T00:00:00Z", "2006-01-02T15:04:05+24:00", "2006-01-02T15:04:05-07", "2006-01-02T15:04Z", "2006-01-02T15:04:60Z", "2006-01-02 15:04:05Z", "2006-01-02T15:04:05.Z", "1999-12-31T23:59:59+00:30")
+		"2006-01-02T24:00:00Z", "2006-1-2T15:04:05Z", "2021-02-29T00:00:00Z", "2006-01-02T15:04:05+24:00", "2006-01-02T15:04:05-07", "2006-01-02T15:04Z", "2006-01-02T15:04:60Z", "2006-01-02 15:04:05Z", "2006-01-02T15:04:05.Z", "1999-12-31T23:59:59+00:30",
+		// every sign x minute part of the zone offset, day/month/year roll-over through the offset
+		"2006-01-02T15:04:05-03:30", "2006-01-01T00:10:00-09:45", "2006-12-31T23:50:00+05:45", "2006-01-02T15:04:05-00:30", "2006-01-02T15:04:05+14:00", "2006-01-02T15:04:05-12:00", "2006-01-02T15:04:05+00:00", "2006-01-02T15:04:05-23:59")
 	add("formatdate", stdlib.FormatDateFunc, func(pos int, th bool) []cty.Value {
 		if pos == 1 {
 			return stamps
